@@ -111,3 +111,28 @@ fn ping_from_another_thread_during_the_callback_is_delivered() {
     drop(el);
     let _ = th;
 }
+
+/// the last handles dropped at the same moment from several threads: the close still reaches the source, which removes
+/// itself (its token dies) -- for every one of many rounds
+#[test]
+fn concurrent_drop_of_the_last_handles_closes_the_source() {
+    use std::sync::atomic::AtomicBool;
+    let mut el: EventLoop<u32> = EventLoop::try_new().unwrap();
+    let h = el.handle();
+    for round in 0..20000 {
+        let (ping, source) = make_ping().unwrap();
+        let tok = h.insert_source(source, |_, _, n: &mut u32| *n += 1).unwrap();
+        let go = Arc::new(AtomicBool::new(false));
+        let ths: Vec<_> = (0..3).map(|_| {
+            let (p, go) = (ping.clone(), go.clone());
+            std::thread::spawn(move || { while !go.load(Ordering::Acquire) { std::hint::spin_loop(); } drop(p); })
+        }).collect();
+        drop(ping);
+        go.store(true, Ordering::Release);
+        for t in ths { t.join().unwrap(); }
+        let mut n = 0;
+        el.dispatch(Duration::from_millis(200), &mut n).unwrap();
+        assert_eq!(n, 0, "round {}: a callback without a ping", round);
+        assert!(matches!(h.enable(&tok), Err(calloop::Error::InvalidToken)), "round {}: every handle is gone but the source did not remove itself", round);
+    }
+}
